@@ -21,7 +21,12 @@ def main():
     ap.add_argument("--replay")
     a = ap.parse_args()
     tier = a.tier if a.tier in ("quick", "thorough") else "quick"
-    seed = int(os.environ.get("VERIF_SEED", "1") or 1)
+    raw = os.environ.get("VERIF_SEED", "1") or "1"
+    try:
+        seed = int(raw)
+    except ValueError:          # any string is a valid seed
+        import zlib
+        seed = zlib.crc32(raw.encode())
     prop = a.prop
     t0 = time.time()
     P = props.get(prop)
